@@ -172,7 +172,7 @@ def check_case(ctx, case):
 
 def run(ctx):
     rng = ctx.rng
-    for i in range(ctx.scale(220, 3000)):
+    for i in range(ctx.scale(220, 12000)):
         if ctx.out_of_time():
             break
         n = rng.randint(2, 4)
